@@ -214,7 +214,7 @@ fn real_main() {
     });
     ctx.replayer("treap-history", |v| {
         let c: c03::Case = serde_json::from_value(v.clone()).expect("case");
-        c03::run_case(&c)
+        c03::run_case_heap_only(&c)
     });
     ctx.begin();
     let stages: Vec<(u32, u64)> = if ctx.thorough() {
@@ -234,7 +234,7 @@ fn real_main() {
     }
     if ctx.violations() == 0 {
         // small histories with library priorities: heap order after every operation
-        ctx.prop("small-histories-heap", "treap-history", ctx.n(8_000, 200_000), c03::case(60), c03::run_case);
+        ctx.prop("small-histories-heap", "treap-history", ctx.n(8_000, 200_000), c03::case(60), c03::run_case_heap_only);
     }
     ctx.finish();
 }
